@@ -64,7 +64,7 @@ class Stub:
         menu = self.menu(pay)
         k = self.ch.choose(len(menu), "reply")
         reply = menu[k]
-        self.calls.append((pay["tick"], reply))
+        self.calls.append((pay.get("tick"), reply))
         self.checker.on_reply(reply)
         return reply
 
@@ -104,6 +104,35 @@ class Stub:
         return menu
 
 
+def covers(got, want, path=""):
+    """got (from the payload) must agree with every figure in want (ground truth); additional keys that the
+    statement does not speak about are allowed (the taint scan still covers their contents)"""
+    if isinstance(want, dict):
+        if not isinstance(got, dict):
+            return f"{path}: {got!r} is not an object"
+        for k, v in want.items():
+            if k not in got:
+                return f"{path}.{k} missing"
+            r = covers(got[k], v, f"{path}.{k}")
+            if r:
+                return r
+        return None
+    if isinstance(want, list):
+        if not isinstance(got, list) or len(got) != len(want):
+            return f"{path}: {got!r} vs {want!r}"
+        for i, (g, w_) in enumerate(zip(got, want)):
+            r = covers(g, w_, f"{path}[{i}]")
+            if r:
+                return r
+        return None
+    if isinstance(want, float) or isinstance(got, float):
+        try:
+            return None if abs(got - want) <= 1e-9 * max(1, abs(want)) else f"{path}: {got!r} vs {want!r}"
+        except TypeError:
+            return f"{path}: {got!r} vs {want!r}"
+    return None if got == want else f"{path}: {got!r} vs {want!r}"
+
+
 class Checker:
     """compares every request with the ground truth at the instant of the call"""
 
@@ -136,14 +165,15 @@ class Checker:
         for t in TAINTS:
             if t in text:
                 self.flag("leaks-true-resource-needs", f"request text contains the segment figure ...{t}")
-        for k in ("tick", "sim_time_seconds", "results", "new_pipelines", "other_pipelines", "pools"):
+        for k in ("results", "new_pipelines", "other_pipelines", "pools"):
             if k not in pay:
                 self.flag("payload-shape", f"missing key {k}")
                 return
         # results of the last tick
         want = [dict(ops=[str(o.id) for o in r.ops], cpu=r.cpu, ram=r.ram, priority=r.priority.name, pool_id=r.pool_id, container_id=r.container_id, error=r.error) for r in rd.results]
-        if pay["results"] != json.loads(json.dumps(want)):
-            self.flag("results-not-true", f"tick {tick}: payload results {pay['results']} vs executor results {want}")
+        bad = covers(pay["results"], json.loads(json.dumps(want)), "results")
+        if bad:
+            self.flag("results-not-true", f"tick {tick}: {bad}; payload results {pay['results']} vs executor results {want}")
         # pools and containers
         ex = w.executor
         if len(pay["pools"]) != len(ex.pools):
@@ -158,8 +188,9 @@ class Checker:
                 got = pj.get(key)
                 wantc = [dict(container_id=c.container_id, pipeline_id=c.operators[0].pipeline.pipeline_id, operator_ids=[str(o.id) for o in c.operators], cpu=c.assignment.cpu,
                               ram_gb=c.assignment.ram, current_memory_gb=c.get_current_memory_usage(), priority=c.priority.name) for c in lst]
-                if got != json.loads(json.dumps(wantc)):
-                    self.flag("containers-not-true", f"tick {tick} pool {p.pool_id} {key}: reported {got}, true {wantc}")
+                bad = covers(got, json.loads(json.dumps(wantc)), key)
+                if bad:
+                    self.flag("containers-not-true", f"tick {tick} pool {p.pool_id} {key}: {bad}; reported {got}, true {wantc}")
         # pipelines and operator states
         newids = [pl["pipeline_id"] for pl in pay["new_pipelines"]]
         otherids = [pl["pipeline_id"] for pl in pay["other_pipelines"]]
@@ -188,8 +219,9 @@ class Checker:
             ops = list(p.values)
             truth_ops = [dict(id=str(o.id), state=SV[id(st.operator_states[o])], is_assignable_state=SV[id(st.operator_states[o])] in (P, F),
                               parents_complete=all(SV[id(st.operator_states[q])] == C for q in o.parents)) for o in ops]
-            if sorted(pl["operators"], key=lambda o: o["id"]) != sorted(truth_ops, key=lambda o: o["id"]):
-                self.flag("operator-states-not-true", f"tick {tick} {pl['pipeline_id']}: reported {pl['operators']}, true {truth_ops}")
+            bad = covers(sorted(pl["operators"], key=lambda o: o["id"]), sorted(truth_ops, key=lambda o: o["id"]), "operators")
+            if bad:
+                self.flag("operator-states-not-true", f"tick {tick} {pl['pipeline_id']}: {bad}; reported {pl['operators']}, true {truth_ops}")
             comp = all(o["state"] == C for o in truth_ops)
             if pl["is_complete"] != comp:
                 self.flag("is-complete-wrong", f"tick {tick} {pl['pipeline_id']}: is_complete={pl['is_complete']}, true {comp}")
@@ -214,7 +246,7 @@ class Checker:
             return
         got_s = [dict(container_id=s.container_id, pool_id=s.pool_id) for s in sus]
         got_a = [dict(operator_ids=[str(o.id) for o in a.ops], cpu=a.cpu, ram_gb=a.ram, pool_id=a.pool_id, priority=a.priority.name, is_resume=a.is_resume, force_run=a.force_run) for a in asg]
-        if got_s != r["suspensions"] or got_a != r["assignments"]:
+        if covers(got_s, r["suspensions"], "suspensions") or covers(got_a, r["assignments"], "assignments"):
             self.flag("decisions-not-as-given", f"reply {r} became suspensions {got_s}, assignments {got_a}")
 
 
